@@ -230,7 +230,7 @@ fn raw_ngram() -> impl Strategy<Value = RawNgram> {
     (
         prop_oneof![9 => vec(any::<u16>(), 1..=6), 1 => vec(any::<u16>(), 7..=12)],
         prop::option::weighted(0.35, (any::<u16>(), 1u8..=3)),
-        vec(weight(), 16),
+        weights16(),
     )
         .prop_map(|(chars, suffix_of, weights)| RawNgram {
             chars,
@@ -243,7 +243,7 @@ fn raw_type_ngram() -> impl Strategy<Value = RawTypeNgram> {
     (
         prop_oneof![9 => vec(1u8..=6, 1..=6), 1 => vec(1u8..=6, 7..=10)],
         prop::option::weighted(0.35, (any::<u16>(), 1u8..=3)),
-        vec(weight(), 16),
+        weights16(),
     )
         .prop_map(|(types, suffix_of, weights)| RawTypeNgram {
             types,
@@ -256,7 +256,7 @@ fn raw_word() -> impl Strategy<Value = RawWord> {
     (
         prop_oneof![8 => vec(any::<u16>(), 1..=4), 2 => vec(any::<u16>(), 5..=12), 1 => vec(any::<u16>(), 13..=45)],
         prop::option::weighted(0.3, (any::<u16>(), 0u8..=2)),
-        vec(weight(), 16),
+        weights16(),
     )
         .prop_map(|(chars, same_as_ngram, weights)| RawWord {
             chars,
@@ -351,8 +351,24 @@ const TAG_NAMES: &[&str] = &[
     "t0", "t1",
 ];
 
+/// Sixteen weights followed by a shape (mode, run): sparse vectors with runs of zeros at either end
+/// are what an L1-regularised learner produces, and the predictor chooses its representation of a
+/// weight vector by its length.
+pub fn weights16() -> impl Strategy<Value = Vec<i32>> {
+    (vec(weight(), 16), 0i32..10, 0i32..256).prop_map(|(mut w, mode, run)| {
+        w.push(mode);
+        w.push(run);
+        w
+    })
+}
+
 fn fit_weights(src: &[i32], n: usize, small: bool) -> Vec<i32> {
-    (0..n)
+    let (src, shape) = if src.len() == 18 {
+        (&src[..16], Some((src[16], src[17] as usize)))
+    } else {
+        (src, None)
+    };
+    let mut out: Vec<i32> = (0..n)
         .map(|k| {
             let w = src[k % src.len()];
             if small {
@@ -361,7 +377,37 @@ fn fit_weights(src: &[i32], n: usize, small: bool) -> Vec<i32> {
                 w
             }
         })
-        .collect()
+        .collect();
+    if let (Some((mode, run)), true) = (shape, n > 0) {
+        match mode {
+            6 => {
+                let k = 1 + run % n;
+                out[n - k..].iter_mut().for_each(|x| *x = 0);
+            }
+            7 => {
+                let k = 1 + run % n;
+                out[..k].iter_mut().for_each(|x| *x = 0);
+            }
+            8 => {
+                let keep = run % n;
+                for (i, x) in out.iter_mut().enumerate() {
+                    if i != keep {
+                        *x = 0;
+                    }
+                }
+            }
+            9 => {
+                let k = run % n;
+                for (i, x) in out.iter_mut().enumerate() {
+                    if i != 0 && i != k {
+                        *x = 0;
+                    }
+                }
+            }
+            _ => {}
+        }
+    }
+    out
 }
 
 pub fn resolve_model(raw: &RawModel) -> ModelCase {
